@@ -92,6 +92,27 @@ def deposit (s : St) (a : Addr) (x : Int) (vaultOk stratOk acctOk : Bool) : Res 
             loose := s.loose + x - x,
             bal := upd s.bal a (s.bal a - x) }
 
+/-- what `strategy.Withdraw(amt)` pays into the module account: savings/hard `Withdraw` cap the
+    request at the deposit (`CalculateWithdrawAmount`) -/
+def stratPaid (amt val : Int) : Int := if amt > val then val else amt
+
+/-- the shares finally removed: the requested shares, or the whole balance when the rest is dust -/
+def sweep (s : St) (a : Addr) (w dustVal : Int) : Int := if dustVal = 0 then s.sh a else w
+
+/-- the tail of `Withdraw`: decrement the records by the (possibly swept) shares.
+    `VaultShares.Sub` / `VaultShare.Sub` panic on a negative result; `UpdateVaultRecord` deletes
+    the vault record when the total reaches zero. -/
+def withdrawRecords (s : St) (a : Addr) (w' amt paid : Int) : Res :=
+  if s.sh a - w' < 0 then .panic
+  else if s.tot - w' < 0 then .panic
+  else
+    .ok { found := decide (s.tot - w' ≠ 0),
+          tot := s.tot - w',
+          sh := upd s.sh a (s.sh a - w'),
+          val := s.val - paid,
+          loose := s.loose + paid - amt,
+          bal := upd s.bal a (s.bal a + amt) }
+
 /-- `Keeper.Withdraw`, in the code's order:
     shares for the wanted amount → share balance check → truncated asset value of those shares →
     account value check → strategy.Withdraw → send → dust test of the remaining shares against the
@@ -119,30 +140,16 @@ def withdraw (s : St) (a : Addr) (want : Int) (vaultOk stratOk : Bool) : Res :=
           | .ok accVal =>
             if amt > accVal then .err  -- ErrInsufficientValue (value)
             -- strategy.Withdraw(amt): savings/hard `Withdraw` of the module account's deposit;
-            -- no deposit → error; pays min(amt, deposit) (CalculateWithdrawAmount)
+            -- no deposit → error
             else if s.val = 0 then .err
+            -- bankKeeper.SendCoinsFromModuleToAccount(earn, from, amt)
+            else if s.loose + stratPaid amt s.val < amt then .err
             else
-              let paid := if amt > s.val then s.val else amt
-              let val1 := s.val - paid
-              -- bankKeeper.SendCoinsFromModuleToAccount(earn, from, amt)
-              if s.loose + paid < amt then .err
-              else
-                -- ShareIsDust(shares − withdrawShares): stored total shares, post-withdraw value
-                match convertToAssets { s with val := val1 } (s.sh a - w) with
-                | .err => .err
-                | .panic => .panic
-                | .ok dustVal =>
-                  let w' := if dustVal = 0 then s.sh a else w
-                  -- VaultShares.Sub / VaultShare.Sub panic on a negative result
-                  if s.sh a - w' < 0 then .panic
-                  else if s.tot - w' < 0 then .panic
-                  else
-                    .ok { found := decide (s.tot - w' ≠ 0),     -- UpdateVaultRecord deletes at zero
-                          tot := s.tot - w',
-                          sh := upd s.sh a (s.sh a - w'),
-                          val := val1,
-                          loose := s.loose + paid - amt,
-                          bal := upd s.bal a (s.bal a + amt) }
+              -- ShareIsDust(shares − withdrawShares): stored total shares, post-withdraw value
+              match convertToAssets { s with val := s.val - stratPaid amt s.val } (s.sh a - w) with
+              | .err => .err
+              | .panic => .panic
+              | .ok dustVal => withdrawRecords s a (sweep s a w dustVal) amt (stratPaid amt s.val)
 
 /-- `GetVaultAccountValue` as a total function (0 when the vault record does not exist). -/
 def redeemable (s : St) (a : Addr) : Int :=
@@ -153,13 +160,14 @@ def redeemable (s : St) (a : Addr) : Int :=
 inductive Op where
   | deposit (a : Addr) (x : Int) (vaultOk stratOk acctOk : Bool)
   | withdraw (a : Addr) (want : Int) (vaultOk stratOk : Bool)
-  /-- interest accruing in the underlying market: the strategy value grows by `dv ≥ 0` -/
+  /-- interest accruing in the underlying market: a positive strategy value grows by `dv ≥ 0` -/
   | accrue (dv : Int)
 
 def step (s : St) : Op → Res
   | .deposit a x v st ac => deposit s a x v st ac
   | .withdraw a w v st => withdraw s a w v st
-  | .accrue dv => if dv < 0 then .err else .ok { s with val := s.val + dv }
+  -- the environment can only grow an existing position (nothing accrues on an empty one)
+  | .accrue dv => if dv < 0 ∨ (s.val = 0 ∧ dv ≠ 0) then .err else .ok { s with val := s.val + dv }
 
 /-- a failed or panicking message leaves the state unchanged (baseapp) -/
 def next (s : St) (o : Op) : St :=
